@@ -71,6 +71,13 @@ def createGuarded (br : BR) (op : Op) (w : World) (o : StepOut) : Bool :=
 def singleCanary (br : BR) (w : World) (o : StepOut) : Bool :=
   decide (matchCount br o.w ≤ max 1 (matchCount br w))
 
+/-- C06: the in-memory creation expectation guards `create` (it is what prevents a second canary while the
+    informer has not yet shown the first): with a pending, not timed-out expectation nothing is created, and
+    whenever something is created the expectation is pending afterwards. -/
+def expectationGuardsCreate (c : Cfg) (w : World) (exp : Exp) (o : StepOut) : Bool :=
+  (if exp = .pending ∧ c.timedOut = false then decide (o.w.deps.length ≤ w.deps.length) else true) &&
+  (if o.w.deps.length > w.deps.length then o.exp = .pending else true)
+
 /-! ### C01 -/
 
 /-- C01 `canary_replicas_within_step`: `spec.replicas` of every Deployment is unchanged, or — only in
@@ -160,12 +167,13 @@ def panicAllowed (br : BR) (w : World) : Bool :=
   w.deps.any (fun d => d.replicas = none || (d.strategy.type = .rolling && d.strategy.rolling = none) ||
                        d.template.labels.isEmpty)
 
-def stepOracles (br : BR) (op : Op) (c : Cfg) (w : World) (o : StepOut) : List (String × Bool) :=
+def stepOracles (br : BR) (op : Op) (c : Cfg) (w : World) (exp : Exp) (o : StepOut) : List (String × Bool) :=
   if o.res = .panic then [("C09.canary_no_panic", panicAllowed br w)] else
   [ ("C06.canary_finalize_ok_means_gone", finalizeOkMeansGone op o),
     ("C06.canary_fault_reported", faultReported c o),
     ("C06.canary_create_guarded", createGuarded br op w o),
     ("C06.canary_initialize_single", singleCanary br w o),
+    ("C06.canary_expectation_guards_create", expectationGuardsCreate c w exp o),
     ("C01.canary_replicas_within_step", replicasWithinStep br op w o),
     ("C01.canary_upgrade_reaches_target", upgradeReachesTarget br op w o),
     ("C05.canary_finalize_releases_stable", finalizeReleasesStable br op o),
